@@ -120,8 +120,9 @@ fn main() {
                 rr.violation("C10", "action_log_differs", json!({"ctx": ctx, "observed": acts}));
             }
             let want = pos_from_spec_fen(rec["cur"].as_str().unwrap());
+            let want_alt = pos_from_spec_fen(rec["curalt"].as_str().unwrap());
             let got = proj(&g.current_position());
-            if got != want {
+            if got != want && got != want_alt {
                 rr.violation("C10", "current_position_differs", json!({"ctx": ctx, "expected": want.describe(), "observed": got.describe()}));
             }
             let stm = if g.side_to_move() == Color::White { "w" } else { "b" };
